@@ -1011,6 +1011,80 @@ fn c14(r: &Runner) {
         l.states(n);
         l.bulk("reciprocal", n, n, 1);
     });
+    // the same dense sweep around the interior point of every row where the table seed v0 is (nearly) exact,
+    // v0 * d40 = 2^50: there the first Newton step v1 = 2^11 v0 - v0^2 d40 / 2^40 is at its maximum and the
+    // head-room of the second step, 2^60 - v1 * d40, is smallest
+    r.universe(&format!("reciprocal: 256 table rows x 2^{k} prefixes around the row's Newton maximum v0*d40 = 2^50 (tight loop, u128 reference)"), 64, 256 * 32, |i, l| {
+        let row = 256 + (i / 32) as u64;
+        let part = (i % 32) as u64;
+        let per = (1u64 << k) / 32;
+        let v0 = ((1u64 << 19) - 3 * (1 << 8)) / row;
+        let lo40 = row << 31;
+        let hi40 = (row << 31) | ((1 << 31) - 1);
+        let centre = ((1u64 << 50) / v0).clamp(lo40, hi40);
+        let first = centre.saturating_sub((1u64 << k) / 2).max(lo40);
+        let mut n = 0u64;
+        for j in 0..per {
+            let p40 = first + part * per + j;
+            if p40 > hi40 {
+                break;
+            }
+            for low in [0u64, 0xff_ffff, 0x9e_3779] {
+                let d = (p40 << 24) | low;
+                let e = (u128::MAX / d as u128 - (1u128 << 64)) as u64;
+                n += 1;
+                if alg::div::reciprocal(d) != e {
+                    k::exec(l, 64, K::reciprocal, &[V::N(d as u128)]);
+                }
+            }
+        }
+        l.states(n);
+        l.bulk("reciprocal", n, n, 1);
+    });
+    // "round fractions": d = floor(2^64 * p / q) + delta for every q <= 128 and 1/2 <= p/q < 1 (divisors whose
+    // reciprocal is a simple fraction: truncations in the Newton steps line up with exact values)
+    {
+        let mut fr: Vec<u64> = vec![];
+        for q in 2u128..=128 {
+            for p in (q + 1) / 2..q {
+                let b = ((p << 64) / q) as u64;
+                for dl in -3i64..=3 {
+                    let d = b.wrapping_add(dl as u64);
+                    if d >= 1 << 63 {
+                        fr.push(d);
+                    }
+                }
+            }
+        }
+        fr.sort();
+        fr.dedup();
+        r.universe(&format!("reciprocal / div_2x1 / reciprocal_2 / div_3x2 on {} round-fraction divisors floor(2^64 p/q) + delta, q <= 128", fr.len()), 128, fr.len(), |i, l| {
+            let d = fr[i];
+            l.states(1);
+            k::exec(l, 64, K::reciprocal, &[V::N(d as u128)]);
+            for q in [1u64, 3, u64::MAX, d, 0x9E37_79B9_7F4A_7C15] {
+                for rr in [0u64, 1, d - 1] {
+                    let uu = (q as u128) * (d as u128) + rr as u128;
+                    if ((uu >> 64) as u64) < d {
+                        k::exec(l, 128, K::div_2x1, &[V::U(vec![uu as u64, (uu >> 64) as u64]), V::N(d as u128)]);
+                    }
+                }
+            }
+            // two-word divisors with this high word, and the two-word round fractions with this leading word
+            for d0 in [0u64, 1, d, !d, u64::MAX, d.wrapping_mul(3), fr[(i * 7 + 1) % fr.len()]] {
+                k::exec(l, 128, K::reciprocal_2, &[V::U(vec![d0, d])]);
+                k::exec(l, 128, K::reciprocal_2_mg10, &[V::U(vec![d0, d])]);
+                let dd = (d as u128) << 64 | d0 as u128;
+                for q in [1u64, u64::MAX, 0x9E37_79B9_7F4A_7C15] {
+                    let n = BigUint::from(q) * BigUint::from(dd) + BigUint::from(d0 / 2);
+                    let nl = to_limbs_n(&n, 3);
+                    if ((nl[2] as u128) << 64 | nl[1] as u128) < dd {
+                        k::exec(l, 192, K::div_3x2, &[V::U(nl), V::U(vec![d0, d])]);
+                    }
+                }
+            }
+        });
+    }
     // reciprocal_2: divisors SOLVED for so that the second-stage sum lands exactly on (or next to) d1, the
     // operand of the final tie-break comparison (a path of density 2^-64 under any product universe)
     r.universe(&format!("reciprocal_2: for {} high words d1, low words d0 solved such that the second-stage partial sum equals d1 +- 2", ds.len()), 128, ds.len(), |i, l| {
